@@ -87,10 +87,15 @@ def g_probes(ctx):
     return pm.jobs(ctx, ["wasm_int.h", "libm_markers.h"], "G")
 
 
+from ..eexpr import expr_jobs
+
 def make_jobs(ctx):
     jobs = []
     inc = [os.path.join(ctx.repo, "w2c2")]
     jobs += rmem.jobs(ctx, ["plain_loads", "plain_stores"], "R", ub_checks=True)
+    # "lay values out little-endian" on a big-endian host too (the byte-swapping definitions; property C19 covers the rest of that configuration)
+    jobs += rmem.jobs(ctx, ["plain_loads", "plain_stores"], "BEm", variant="noswapbuiltin", big_endian=True,
+                      defines=["WASM_ENDIAN=WASM_BIG_ENDIAN", "WASM_THREADS_PTHREADS"])
     # wasmMemoryGrow / Allocate: arithmetic contracts, unbounded in pages / delta / maxPages
     jobs.append(Job("R.grow", os.path.join(H, "c05_grow.c"), entry="h_grow", includes=inc, defines=["GROW_CLASS_REPRESENTABLE"],
                     enforce=[("wasmMemoryGrow", "c_wasmMemoryGrow")], funcs=["w2c2_base.h:wasmMemoryGrow"], replay=gen_replay,
@@ -107,6 +112,7 @@ def make_jobs(ctx):
                         funcs=["w2c2_base.h:" + fn], replay=gen_replay, bounded="memory object of 12 bytes, lengths <= 12 (functions are uniform in the object size)",
                         info=dict(layer="R")))
     jobs += g_probes(ctx)
+    jobs += expr_jobs(ctx, ["load", "store"])
     return jobs
 
 
